@@ -125,3 +125,17 @@ package dynblock
 //@ requires e.i != nil ==> (forall k string :: has(e.i.Inherited, k) ==> e.i.Inherited[k] != nil)
 //@ ensures plain: e.i == nil ==> ret0 == withMarksOf(exprVal(e.Expression, ctx), e.resultMarks)
 //@ ensures scoped: e.i != nil ==> (exists c *hcl.EvalContext :: { exprVal(e.Expression, c) } iterCtxFor(c, e.i, ctx, e.Expression) && ret0 == withMarksOf(exprVal(e.Expression, c), e.resultMarks))
+
+// ---- bodies of blocks generated from an unknown for_each (unit U13c, C18/C06) ----
+// verif:unit U13c props=C18,C06
+// Everything reached through an unknown body stays unknown and keeps the for_each marks: the
+// remainder of partial processing and the body of every nested block are again unknown bodies with
+// the same marks (one per template block).
+// verif:func (unknownBody).PartialContent
+//@ nosafety
+//@ ensures remain: typeis(ret1, unknownBody) && unbox(ret1, unknownBody).valueMarks == b.valueMarks
+// verif:func (unknownBody).fixupContent
+//@ nosafety
+//@ requires got != nil && (forall j int :: { got.Blocks[j] } 0 <= j && j < len(got.Blocks) ==> got.Blocks[j] != nil)
+//@ ensures blocks: ret != nil && len(ret.Blocks) == len(got.Blocks) && (forall j int :: { ret.Blocks[j] } 0 <= j && j < len(ret.Blocks) ==> ret.Blocks[j] != nil && typeis(ret.Blocks[j].Body, unknownBody) && unbox(ret.Blocks[j].Body, unknownBody).valueMarks == b.valueMarks)
+//@ loop 1 invariant ret != nil && fresh(ret) && fresh(ret.Blocks) && len(ret.Blocks) == rangeindex + 1 && rangeindex + 1 <= len(got.Blocks) && (forall j int :: { ret.Blocks[j] } 0 <= j && j < len(ret.Blocks) ==> ret.Blocks[j] != nil && fresh(ret.Blocks[j]) && typeis(ret.Blocks[j].Body, unknownBody) && unbox(ret.Blocks[j].Body, unknownBody).valueMarks == b.valueMarks)
